@@ -96,6 +96,12 @@ impl Service {
         let mut perpetual_changed = false;
         if let Some(old_instance) = old_instance {
             instance.register_time = old_instance.register_time;
+            if from_sync && old_instance.is_enable_timeout() && instance.is_enable_timeout() {
+                // a copy pushed by another node (snapshot / batch sync) must not restart the heartbeat clock of an
+                // instance this node supervises: no time-out entry is queued for it (from_sync), so a refreshed
+                // last_modified_millis would make the queued entries skip it for ever
+                instance.last_modified_millis = old_instance.last_modified_millis;
+            }
             if instance.ephemeral && !instance.from_grpc && old_instance.from_grpc {
                 /*
                 match (old_instance.from_grpc, old_instance.is_from_cluster()) {
